@@ -2,6 +2,7 @@ package main
 
 import (
 	"fmt"
+	"strings"
 
 	"verif/harness/gen"
 	"verif/simrt/spec"
@@ -90,6 +91,7 @@ func init() {
 				probe("ppathdigit", "path-variable-named-x_2", gen.RPathVarDigit, gen.FPathVars),
 				probe("pduphdr", "same-header-on-two-methods", gen.RDupMethodHeader),
 				probe("psamemeth", "same-method-name-in-two-services", gen.RSameMethodName),
+				twoPkgWorld(10601, "p2pkg", false),
 			}
 		},
 		rule: "plans = 1-4 concurrent Go-client calls over the RPCs of a seeded world (values drawn per field kind incl. boundary values, content type per client and per call, base URL with/without trailing slash) executed on the simulated link under a drawn fragmentation / delay / interleaving schedule; distinct_nontrivial counts distinct (world, rpc, client>server, content type, outcome) tuples for which the delivery oracle compared request and response",
@@ -138,7 +140,7 @@ func init() {
 		technique: "deterministic simulation: contract client emitting raw requests over the simulated link, reference binding model as oracle",
 	}
 	props["C03"] = &propCfg{
-		id: "C03", level: "exploration", design: "DESIGN.md §4 C03", modes: []string{"matrix"}, needTS: true,
+		id: "C03", level: "exploration", design: "DESIGN.md §4 C03", modes: []string{"matrix", "link-faults"}, needTS: true,
 		quick: tierCfg{worlds: 32, batchSize: 24, checks: 240, timeoutS: 300},
 		thor:  tierCfg{worlds: 160, batchSize: 40, checks: 3600, timeoutS: 9000},
 		genCfg: func(seed uint64, name string) gen.Config {
@@ -233,6 +235,11 @@ func init() {
 				mockProbe("pmockoptnum", "mock-optional-numbers", &spec.Field{Name: "a", Number: 1, Kind: "int32", Card: "optional"}, &spec.Field{Name: "b", Number: 2, Kind: "double", Card: "optional"}, &spec.Field{Name: "c", Number: 3, Kind: "bool", Card: "optional"}, &spec.Field{Name: "d", Number: 4, Kind: "uint64", Card: "optional"}),
 				mockProbe("pmockrec", "mock-recursive-message", &spec.Field{Name: "root", Number: 1, Kind: "message", TypeName: ".pmockrec.v1.Node"}),
 				mockProbe("pmockrepmsg", "mock-repeated-message", &spec.Field{Name: "items", Number: 1, Kind: "message", TypeName: ".pmockrepmsg.v1.Leaf", Card: "repeated"}),
+				twoPkgWorld(20601, "pmock2pkg", true),
+				mockProbe("pmockmaxlen", "mock-string-with-max-len-and-non-ascii-examples",
+					&spec.Field{Name: "display_name", Number: 1, Kind: "string", Examples: []string{"ééé", "abc"}, Rules: &spec.Rules{MaxLen: u64p(3)}},
+					&spec.Field{Name: "city", Number: 2, Kind: "string", Examples: []string{"Zürich", "Saarbrücken"}, Rules: &spec.Rules{MaxLen: u64p(11)}},
+					&spec.Field{Name: "code", Number: 3, Kind: "string", Examples: []string{"日本", "ab"}, Rules: &spec.Rules{MaxLen: u64p(2)}}),
 			}
 		},
 		rule: "plans = 1-4 interleaved Go-client calls against the generated server backed by NewMock<Svc>Server(), with the mock's rand.Intn results, crypto/rand outcome (incl. failure) and clock supplied by the plan; oracle = the mock answers a valid request without error, the server serialises it (JSON and protobuf), the client decodes an equal message, and every response field whose examples all parse to its type holds one of them; distinct_nontrivial counts distinct (world, rpc, codec, examples?, crypto failure?, outcome) tuples. Conformance to the OpenAPI response schema is not decided here",
@@ -291,6 +298,37 @@ func lower(s string) string {
 }
 
 // mockProbe builds a minimal world for one response-field shape of the mock generator.
+// twoPkgWorld: two service files generated in ONE plugin invocation into two Go packages that
+// have the same package name (the usual versioned layout: .../users/v1 and .../orders/v1 are
+// both "package v1"). Everything the generators memoise per package name, per file or per
+// invocation is shared or not shared between the two in a way single-file worlds never show.
+func twoPkgWorld(seed uint64, name string, mock bool) *spec.World {
+	allow := safeAllow()
+	if mock {
+		allow[gen.FExamples] = true
+	}
+	a := gen.World(gen.Config{Seed: gen.Mix(seed, 1), Name: name, Allow: allow, Mock: mock, MockSafe: mock, Force: []string{gen.FExamples}})
+	b := gen.World(gen.Config{Seed: gen.Mix(seed, 2), Name: name + "b", Allow: allow, AltNames: true, Mock: mock, MockSafe: mock, Force: []string{gen.FExamples}})
+	a.Files[0].GoPackage = "verifworld/" + name + "/users/v1;v1"
+	fb := b.Files[0]
+	fb.Path = name + "/orders.proto"
+	fb.GoPackage = "verifworld/" + name + "/orders/v1;v1"
+	for _, s := range fb.Services {
+		// keep the two files' routes apart on the one mux
+		bp := "/orders"
+		if s.BasePath != nil {
+			bp += "/" + strings.Trim(*s.BasePath, "/")
+		}
+		s.BasePath = &bp
+	}
+	a.Files = append(a.Files, fb)
+	a.Features = append(a.Features, "two_go_packages_with_one_package_name")
+	a.Probe = "two-go-packages-one-package-name"
+	return a
+}
+
+func u64p(v uint64) *uint64 { return &v }
+
 func mockProbe(name, label string, fields ...*spec.Field) *spec.World {
 	pkg := name + ".v1"
 	resp := &spec.Message{Name: "ProbeResponse", Fields: fields}
